@@ -167,8 +167,16 @@ def chain(rng, kind, cfgs, budget, extras=True):
         ops.append("frame 0")
         if extras and rng.random() < 0.5:
             ops.append("frame %d" % rng.choice([1, 31, 64, 4096]))
+        if trigger and ok and rng.random() < 0.6:
+            # re-configuration of a started camera whose streamer is parked waiting for a software trigger: the next frame
+            # must be rendered with the new geometry into the new buffers
+            b2, t2 = rng.choice([1, 2, 4, 8]), rng.choice([0, 1, 2, 4, 5])
+            w2, h2 = rng.choice([(1, 1), (3, 5), (16, 16), (33, 7), (max(1, w // 4), max(1, h // 4)), (min(512, w * 2), min(512, h * 2))])
+            if cost(b2, t2, w2, h2, kind) <= budget:
+                ops.append(set_line(rng, b2, t2, w2, h2, trigger=1, wild=False))
+                ops.append("frame 0")
         if extras and rng.random() < 0.15:
-            ops.append(set_line(rng, 2, 0, 4, 4))  # set while running: outside the quantifier, skipped identically
+            ops.append(set_line(rng, 2, 0, 4, 4))  # set while the streamer may be rendering: outside the quantifier, skipped identically
         ops.append("stop")
         if extras and rng.random() < 0.3:
             ops.append("frame 0")
